@@ -82,10 +82,12 @@ Open Scope N_scope.
 """
 
 HDR_TR = """
-Definition case_ok (c : nat * ty * expr * nat * option (pyast * list tok)) : bool :=
+Definition ctx_t : Type := (list (text * ty) * list text * list (text * text) * bool)%type.
+Definition case_ok (c : nat * ctx_t * expr * nat * option (pyast * list tok)) : bool :=
   match c with
-  | (mi, st, e, cls, impl) =>
-      let m := transpile gen_ptables (nth mi the_Gs (fun _ => mkTyenv [] [] [] [] [] [] []) st) e in
+  | (mi, (ls, lv, ar, chk), e, cls, impl) =>
+      let m := transpile gen_ptables
+                 (nth mi the_Gs (fun _ _ _ _ => mkTyenv [] [] [] [] [] [] [] [] false) ls lv ar chk) e in
       Nat.eqb (outcome_class m) cls &&
       match m, impl with
       | Ok e', Some (a, ts) => pyast_eqb (strip_parens e') a && list_eqb tok_eqb (print_toks e') ts
@@ -93,7 +95,7 @@ Definition case_ok (c : nat * ty * expr * nat * option (pyast * list tok)) : boo
       | _, _ => true
       end
   end.
-Fixpoint bad_from (i : nat) (cs : list (nat * ty * expr * nat * option (pyast * list tok))) : list nat :=
+Fixpoint bad_from (i : nat) (cs : list (nat * ctx_t * expr * nat * option (pyast * list tok))) : list nat :=
   match cs with [] => [] | c :: r => if case_ok c then bad_from (S i) r else i :: bad_from (S i) r end.
 Definition bad := bad_from 0.
 Open Scope N_scope.
@@ -257,6 +259,50 @@ def module_probe() -> dict:
     return {"mm": mmg.dumps(mm), "instances": insts, "pattern_cases": {}, "fn_cases": {}, "spec_cases": 0}
 
 
+def shadow_probe() -> dict:
+    """Transpilable verification functions whose arguments are called like a constant, a constant
+    set, an enumeration, another verification function and a class; one that legitimately reads a
+    constant; one with local variables. In Python arguments and locals shadow the globals."""
+    N, C = mmg.Name, mmg.Const
+    doc = mmg.Doc("Provide a probe for the name resolution in verification functions.")
+    en = mmg.Enumeration("Color", [mmg.EnumLiteral("Red", "Red"), mmg.EnumLiteral("Blue", "Blue")],
+                         mmg.Doc("Enumerate the colors."))
+    consts = [mmg.ConstantPrimitive("limit", "int", 3, mmg.Doc("Define the default limit.")),
+              mmg.ConstantSet("Allowed_numbers", "int", [1, 2, 3], doc=mmg.Doc("Define the allowed numbers."))]
+    i = mmg.TPrim("int")
+
+    def fn(name, arg, body):
+        return mmg.VerificationFunction(name, "transpilable", [(arg, i)], body=body)
+    fns = [
+        fn("is_small", "value", mmg.Cmp("<", N("value"), C(5))),
+        fn("is_acceptable_limit", "limit", mmg.And((mmg.Cmp("<=", C(0), N("limit")), mmg.Cmp("<=", N("limit"), C(10))))),
+        fn("is_allowed", "Allowed_numbers", mmg.Cmp(">", N("Allowed_numbers"), C(1))),
+        fn("is_colorful", "Color", mmg.Cmp("!=", N("Color"), C(2))),
+        fn("is_tiny", "is_small", mmg.Cmp("<", N("is_small"), C(2))),
+        fn("is_probing", "Probe", mmg.Cmp(">=", N("Probe"), C(0))),
+        fn("is_above_default", "value", mmg.Cmp(">=", N("value"), N("limit"))),
+        fn("is_big_in_total", "value", mmg.Cmp(">", mmg.Add(N("value"), N("limit")), C(7))),
+    ]
+    cls = mmg.Class(
+        "Probe", properties=[mmg.Property("amount", i, mmg.Doc("Hold the amount."))], doc=mmg.Doc("Represent a probe."))
+    me = mmg.Member(N("self"), "amount")
+    for k, f in enumerate(fns):
+        cls.invariants.append(mmg.Invariant(f"Probe-4.{k}: the amount shall satisfy {f.name}",
+                                            mmg.Call(f.name, (me,)), form="c08:shadow_probe"))
+    cls.invariants.append(mmg.Invariant("Probe-4.9: the amount shall not be below the limit",
+                                        mmg.Cmp(">=", me, N("limit")), form="c08:shadow_probe"))
+    mm = mmg.MetaModel(doc, "dummy", "https://example.com/mm", enumerations=[en], classes=[cls], constants=consts,
+                       verification_functions=fns, decl_order=["Color", "Probe"])
+    text = mmg.render_source(mm)
+    old = "    return (value + limit) > 7"
+    assert old in text, "rendering of the probe changed"
+    text = text.replace(old, "    doubled = value + value\n    total = doubled + limit\n    return total > 7")
+    values = [-2, -1, 0, 1, 2, 3, 4, 5, 7, 9, 10, 11, 50]
+    insts = [{"cls": "Probe", "oid": k + 1, "fields": {"amount": v}} for k, v in enumerate(values)]
+    return {"mm": mmg.dumps(mm), "model_text": text, "instances": insts, "pattern_cases": {},
+            "fn_cases": {f.name: values for f in fns}, "spec_cases": 0}
+
+
 def same_errors(impl, exp) -> bool:
     if "raise" in exp:
         return "raise" in impl and impl["raise"] in exp["raise"]
@@ -274,8 +320,8 @@ def streams(ctx: lib.Ctx) -> None:
     n_inst = ctx.n(50, 200)
 
     # ---------------------------------------------------------------- direct oracle
-    jobs = [filter_probe(), that_probe(), module_probe()]
-    metas = [("filter_probe", {}, {}), ("that_probe", {}, {}), ("module_probe", {}, {})]
+    jobs = [filter_probe(), that_probe(), module_probe(), shadow_probe()]
+    metas = [("filter_probe", {}, {}), ("that_probe", {}, {}), ("module_probe", {}, {}), ("shadow_probe", {}, {})]
     n_probes = len(jobs)
     for k in range(n_models):
         base = "small" if (k % 3 or not ctx.thorough) else "medium"
@@ -328,7 +374,8 @@ def streams(ctx: lib.Ctx) -> None:
                     mmj = mmj or mmg.loads(job["mm"])
                     key = {"filter_probe": "comprehension-filter-dropped",
                            "that_probe": "loop-variable-captures-that",
-                           "module_probe": "loop-variable-captures-module"}.get(name) or (
+                           "module_probe": "loop-variable-captures-module",
+                           "shadow_probe": "argument-does-not-shadow-global"}.get(name) or (
                         f"verify-differs-{lib.stable_key(job['mm'], idx)}")
                     ctx.impl_failure(
                         key, "verification.verify(instance) differs from eval of the invariant lambdas",
@@ -421,7 +468,8 @@ def streams(ctx: lib.Ctx) -> None:
 
     lap('rules')
     # ---------------------------------------------------------------- transpiler (a)
-    texts = [mmg.render_source(mmg.loads(j["mm"])) for j in jobs[n_probes:n_probes + ctx.n(6, 40)]]
+    texts = [j.get("model_text") or mmg.render_source(mmg.loads(j["mm"]))
+             for j in jobs[n_probes - 1:n_probes + ctx.n(6, 40)]]   # the shadow probe and the generated models
     tres = lib.impl_call("pyverify_corr.py", {"mode": "transpile", "models": texts}, timeout=2400)
     inputs, cases, gs = [], [], []
     dist = collections.Counter()
@@ -441,10 +489,10 @@ def streams(ctx: lib.Ctx) -> None:
                 continue
             dist[("ok", "err", "crash")[c["cls"]]] += 1
             impl = coq_option(coq_pair(c["pyast"], c["toks"])) if c["cls"] == 0 else "None"
-            cases.append(coq_pair(coq_nat(mi), c["self_ty"], c["tree"], coq_nat(c["cls"]), impl))
+            cases.append(coq_pair(coq_nat(mi), c["ctx"], c["tree"], coq_nat(c["cls"]), impl))
             inputs.append(c)
-    hdr = HDR + "Definition the_Gs : list (ty -> tyenv) := [\n" + ";\n".join(gs) + "].\n" + HDR_TR
-    bad, _ = lib.run_cases(ctx.work, "transpile", hdr, "nat * ty * expr * nat * option (pyast * list tok)",
+    hdr = HDR + "Definition the_Gs : list (list (text * ty) -> list text -> list (text * text) -> bool -> tyenv) := [\n" + ";\n".join(gs) + "].\n" + HDR_TR
+    bad, _ = lib.run_cases(ctx.work, "transpile", hdr, "nat * ctx_t * expr * nat * option (pyast * list tok)",
                            "bad", cases, shard=max(20, len(cases) // 8 + 1))
     for i in bad[:8]:
         c = inputs[i]
